@@ -210,7 +210,7 @@ def tpcds_inputs() -> list[dict]:
 
 def risky(g, tag: str) -> dict:
     """Shapes with several equal-rank candidates in one set."""
-    kind = g.choice(["unqualified_many", "wildcard_disjoint", "drop_rename_mix", "multi_rename", "many_tables", "many_targets", "consumption_variants", "consumption_variants", "repeated_target", "repeated_target"])
+    kind = g.choice(["unqualified_many", "wildcard_disjoint", "drop_rename_mix", "multi_rename", "many_tables", "many_targets", "consumption_variants", "consumption_variants", "repeated_target", "repeated_target", "anon_derived_star"])
     meta = None
     dialect = g.choice(["ansi", "non-validating"])
     if kind == "unqualified_many":
@@ -246,6 +246,23 @@ def risky(g, tag: str) -> dict:
             y = g.choice([n for n in names + ["e", "f"] if n != x])
             pairs.append(f"{x} TO {y}")
         sql = ";\n".join(pre + ["RENAME TABLE " + ", ".join(pairs)])
+    elif kind == "anon_derived_star":
+        # SELECT * over derived tables WITHOUT alias (their names are generated) that share a column name
+        n = g.choice([2, 2, 3])
+        subs = []
+        for i in range(n):
+            cols = ["k"] + [f"d{i}{j}" for j in range(g.choice([1, 2]))] + (["shared"] if g.random() < 0.5 else [])
+            subs.append(f"(SELECT {', '.join(cols)} FROM m.a{i})" + (f" x{i}" if g.random() < 0.25 else ""))
+        join = subs[0] + "".join(f" JOIN {sq} USING (k)" for sq in subs[1:])
+        sql = f"INSERT INTO m.out_{tag} SELECT * FROM {join}"
+        if g.random() < 0.4:
+            sql += f";\nINSERT INTO m.final_{tag} SELECT * FROM m.out_{tag}"
+        # sibling for the warm-process world: the same pieces met in another order earlier in the process
+        rev = list(reversed(subs))
+        sib = f"INSERT INTO m.other_{tag} SELECT * FROM " + rev[0] + "".join(f" JOIN {sq} USING (k)" for sq in rev[1:])
+        inp = {"sql": sql, "dialect": dialect, "meta": None, "cfg": {}, "silent": False, "src": "risky:" + kind}
+        inp["siblings"] = [{"sql": sib, "dialect": dialect, "meta": None, "cfg": {}, "silent": False, "src": "sibling"}]
+        return inp
     elif kind == "repeated_target":
         # the same table written three or more times in one script, positionally and with column lists: whatever the
         # session remembers about the table between the writes (and in which ORDER) decides the later mappings
